@@ -336,6 +336,8 @@ def eval_bool(c, env, cache=None):
         k = c.op[6:]
         if k == 'finite':
             return 1 if (a[0] == a[0] and abs(a[0]) != float('inf')) else 0
+        if k == 'same':
+            return 1 if (a[0] == a[1] or (a[0] != a[0] and a[1] != a[1])) else 0
         return 1 if {'eq': a[0] == a[1], 'lt': a[0] < a[1], 'le': a[0] <= a[1]}[k] else 0
     if c.op == 'not':
         return 1 - eval_bool(c.args[0], env, cache)
